@@ -546,6 +546,7 @@ type Exec struct {
 	iteDefs  map[string][3]Term // merged constant -> (cond, then, else)
 	closures map[*ssa.MakeClosure]bool
 	stack    []*ssa.Function
+	entryAlloc Term // allocation counter at function entry
 }
 
 func (x *Exec) heapGet(st *State, key string) Term {
@@ -567,6 +568,20 @@ func (x *Exec) heapGet(st *State, key string) Term {
 	t := x.ctx.FreshGlobal("H0_"+shortKey(key), srt)
 	if ax := x.eng.rangeAxiom(key, t); ax.S != "true" {
 		x.ctx.globals = append(x.ctx.globals, "(assert "+ax.S+")")
+	}
+	// heap typing of the pre-state: every reference stored in the initial heap denotes nil or an object that existed
+	// at function entry (a Go heap never holds a pointer to an object that has not been allocated yet)
+	if cp, ok := x.eng.heapComps[key]; ok && (cp.Kind == "ref" || cp.Kind == "slice.ref") && x.entryAlloc.S != "" {
+		r := Term{S: "r$y", Sort: SInt}
+		i := Term{S: "i$y", Sort: SInt}
+		switch srt {
+		case ArrOf(SInt):
+			cell := Select(t, r)
+			x.ctx.globals = append(x.ctx.globals, "(assert "+Forall([]Term{r}, And(Le(IntLit(0), cell), Lt(cell, x.entryAlloc)), cell).S+")")
+		case ArrOf(ArrOf(SInt)):
+			cell := Select(Select(t, r), i)
+			x.ctx.globals = append(x.ctx.globals, "(assert "+Forall([]Term{r, i}, And(Le(IntLit(0), cell), Lt(cell, x.entryAlloc)), cell).S+")")
+		}
 	}
 	st.base[key] = t
 	return t
